@@ -107,7 +107,7 @@ class Built:
     pass
 
 
-def build(spec, log=None, lookup=None):
+def build(spec, log=None, lookup=None, hook=None):
     """Build the arguments of `minimize` from a spec.
 
     `lookup` (optional) replaces the functions by look-up tables over a previous log (C06).
@@ -166,6 +166,8 @@ def build(spec, log=None, lookup=None):
         args = tuple(o.get("args", ()))
 
         def fun(x, *a):
+            if hook is not None:
+                hook("obj")
             x = np.asarray(x)
             k = counters["obj"]
             counters["obj"] += 1
@@ -201,6 +203,8 @@ def build(spec, log=None, lookup=None):
         counters[("nl", i)] = 0
 
         def cfun(x, *a, i=i, comps=comps, N=N):
+            if hook is not None:
+                hook("nl")
             x = np.asarray(x)
             k = counters[("nl", i)]
             counters[("nl", i)] += 1
@@ -255,7 +259,7 @@ def build(spec, log=None, lookup=None):
 
     # callback
     cb = spec.get("callback") or {"form": "none"}
-    b.callback = make_callback(cb, lg)
+    b.callback = make_callback(cb, lg, hook)
     b.options = dict(spec.get("options", {}))
     b.constants = dict(spec.get("constants", {}))
     return b
@@ -289,13 +293,15 @@ def _cb_partial_kw(core, intermediate_result):
     return core(intermediate_result.x, intermediate_result)
 
 
-def make_callback(cb, lg):
+def make_callback(cb, lg, hook=None):
     form = cb.get("form", "none")
     if form == "none":
         return None
     state = {"k": 0}
 
     def core(x, ir):
+        if hook is not None:
+            hook("cb")
         state["k"] += 1
         fun = None if ir is None else ir.get("fun", None)
         lg.add("cb", 0, x, (None if fun is None else float(fun), ir is not None))
